@@ -47,6 +47,25 @@ class FileH:
         self.mode = mode
         self.kwargs = kwargs
         self.closed = False
+        self.pos = 0  # byte offset of a binary handle (shared by every copy of the handle, as after fork())
+        self.inode = None
+
+
+class TextBuf:
+    """io.StringIO(text)"""
+
+    def __init__(self, text: str, kwargs: dict):
+        self.text = text
+        self.kwargs = kwargs
+
+
+def inode_of(fs, path):
+    """identity of the file currently at `path` (a new one after remove + create)"""
+    ino = fs.__dict__.setdefault("inodes", {})
+    if path not in ino:
+        fs.__dict__["_next_inode"] = fs.__dict__.get("_next_inode", 100) + 1
+        ino[path] = fs.__dict__["_next_inode"]
+    return ino[path]
 
 
 class CsvR:
@@ -411,6 +430,7 @@ class FSInterp(ResultInterp):
                 if o.s in fs.files:
                     self.fslog("remove", o.s)
                     del fs.files[o.s]
+                    fs.__dict__.setdefault("inodes", {}).pop(o.s, None)
                 elif not kwargs.get("missing_ok", False):
                     raise RaiseSignal("FileNotFoundError", node)
                 return None
@@ -433,6 +453,26 @@ class FSInterp(ResultInterp):
                 self.fslog("raw-write", o.path, repr(args)[:60])
                 fs.files.setdefault(o.path, []).append(["<raw>"])
                 return None
+            if "b" in str(o.mode) and name in ("seek", "tell", "fileno", "readall", "read"):
+                if name == "fileno":
+                    return Tagged("fd", [o])
+                if name == "tell":
+                    return o.pos
+                if name == "seek" and args and isinstance(args[0], int) and (len(args) == 1 or args[1] == 0):
+                    o.pos = args[0]
+                    return o.pos
+                if name in ("readall", "read") and not args:
+                    self.fslog("raw-read", o.path)
+                    if inode_of(fs, o.path) != o.inode or o.path not in fs.files:
+                        return b""  # the file this handle was opened on is gone: nothing more arrives
+                    txt = render_text(fs, o.path)
+                    if txt is None:
+                        return Unknown("raw read")
+                    data = txt.encode("utf8")
+                    out = data[o.pos :]
+                    o.pos = max(o.pos, len(data))
+                    return out
+                return Unknown(f"file.{name}")
             if name in ("read", "readlines") and not args and "r" in str(o.mode) and "b" not in str(o.mode):
                 self.fslog("raw-read", o.path)
                 txt = render_text(fs, o.path)
@@ -505,7 +545,9 @@ class FSInterp(ResultInterp):
         elif mode[0] in "wx":
             self.fslog("open-truncate", path)
             fs.files[path] = []
-        return FileH(path, mode, kwargs)
+        h = FileH(path, mode, kwargs)
+        h.inode = inode_of(fs, path)
+        return h
 
     def iterate(self, it, node):
         if isinstance(it, MemRows):
@@ -595,6 +637,38 @@ class FSInterp(ResultInterp):
                 return MemRows([[toks.get(c, c) for c in r] for r in _csv.reader(list(args[0]), **kwargs)])
             except _csv.Error:
                 raise RaiseSignal("Error", node)
+        if name == "os.stat" and len(args) == 1 and isinstance(args[0], (str, PathV)) and not kwargs:
+            import types
+
+            pth = args[0].s if isinstance(args[0], PathV) else args[0]
+            self.fslog("stat", pth)
+            if pth not in fs.files:
+                raise RaiseSignal("FileNotFoundError", node, payload=pth)
+            txt = render_text(fs, pth)
+            if txt is None:
+                return Unknown("stat of a file with unmodelled content")
+            return types.SimpleNamespace(st_size=len(txt.encode("utf8")), st_ino=inode_of(fs, pth))
+        if name == "os.fstat" and len(args) == 1 and isinstance(args[0], Tagged) and args[0].name == "fd":
+            import types
+
+            h_ = args[0].args[0]
+            same = inode_of(fs, h_.path) == h_.inode and h_.path in fs.files
+            txt = render_text(fs, h_.path) if same else ""
+            if txt is None:
+                return Unknown("fstat of a file with unmodelled content")
+            return types.SimpleNamespace(st_size=len(txt.encode("utf8")), st_ino=h_.inode)
+        if name == "io.StringIO" and len(args) <= 1 and all(isinstance(v, (str, type(None))) for v in kwargs.values()) and (not args or isinstance(args[0], str)):
+            return TextBuf(args[0] if args else "", dict(kwargs))
+        if name == "csv.reader" and args and isinstance(args[0], TextBuf) and all(isinstance(v, (str, int)) for v in kwargs.values()):
+            import csv as _csv
+            import io as _io
+
+            h_ = self.root.__dict__.get("_last_raw_handle")
+            toks = fs.__dict__.get("_sym_tokens", {})
+            try:
+                return MemRows([[toks.get(c, c) for c in r] for r in _csv.reader(_io.StringIO(args[0].text, newline=args[0].kwargs.get("newline")), **kwargs)])
+            except _csv.Error:
+                raise RaiseSignal("Error", node)
         if name == "csv.reader" and args and isinstance(args[0], FileH):
             self.root.csv_sites.append(("reader", dict(kwargs), node, self.func.qual, args[0]))
             return CsvR(args[0], kwargs)
@@ -606,6 +680,7 @@ class FSInterp(ResultInterp):
             self.fslog("remove", p)
             if p in fs.files:
                 del fs.files[p]
+                fs.__dict__.setdefault("inodes", {}).pop(p, None)
                 return None
             raise RaiseSignal("FileNotFoundError", node)
         if name == "os.path.exists":
